@@ -16,7 +16,9 @@
 (*               situation the pq-test exists for.                             *)
 (* Then the allocator runs: work lists are processed in the code's priority    *)
 (* order (simplify, coalesce, freeze, select spill) or, with FreeOrder, in any *)
-(* order; every element a pop() could return is tried (AnyPop; otherwise one    *)
+(* order (then the code's assertion in freeze_moves can fail for an identity    *)
+(* move frozen before it was coalesced — unreachable in the code's own order);  *)
+(* every element a pop() could return is tried (AnyPop; otherwise one           *)
 (* fixed schedule: the smallest element); assign_colors picks the               *)
 (* first free register of the class (as the code does) or, with AnyRegister,   *)
 (* any free register.  All invariants of IRC.tla are checked in every state.   *)
